@@ -70,7 +70,8 @@ def run(chk):
     chk.rule("C01.D", "analytic derivatives offered by package-built potential functions are d/dr of their value", 60)
     view = RuleView(chk, "C01.D")
     for label, fn in (("D/forms", c07.builtin_forms), ("D/combinators", c07.combinators), ("D/combinators-all", c07.combinators_all_presences),
-                      ("D/trans", c07.trans), ("D/multirange", c07.multirange), ("D/splines", lambda c, p: c07.splines(c, p, "C07.O6"))):
+                      ("D/trans", c07.trans), ("D/multirange", c07.multirange), ("D/splines", lambda c, p: c07.splines(c, p, "C07.O6")),
+                      ("D/tableforms", lambda c, p: c07.tableform_derivs(c, p, "C07.O7"))):
         chk.attempt(label, lambda fn=fn: fn(view, P))
 
     chk.info["call_sites_resolved"] = calls + I2.call_sites
